@@ -10,7 +10,7 @@ from ..terms import A, C, F, V, NIL, term_size, pp as show_term
 ID = 'C02'
 LEVEL = 'model_checking'
 RULE = ('every ordered pair (t1,t2) of the term universe (quick: all terms of depth <=1 over variables X,Y,Z, '
-        'atoms a,b,[], Python constants 1, 1000003, \'str\' (passed as equal but distinct objects) and None, 0, the empty string (at top level and as arguments of f/1, f/2), two-cell list-shaped terms whose cells are named . or f, functors f/0 a/0 (compound terms without arguments, distinct from the atoms) f/1 f/2 g/1 ./2; thorough: additionally all terms of depth <=2 with <=4 symbols under the 6 menu stacks) '
+        'atoms a,b,[], Python constants 1, 1000003, \'str\' (passed as equal but distinct objects) and None, 0, the empty string, -1, -2, 2**61-1 (pairs with colliding Python hashes) (at top level and as arguments of f/1, f/2), two-cell list-shaped terms whose cells are named . or f, functors f/0 a/0 (compound terms without arguments, distinct from the atoms) f/1 f/2 g/1 ./2; thorough: additionally all terms of depth <=2 with <=4 symbols under the 6 menu stacks) '
         'x every stack of earlier, still suspended unifications from the menu (quick: 6 stacks; thorough: the depth<=1 universe under every '
         'stack of <=2 equations out of 8 that is consistent and acyclic) x every point of the stack at which the unify generator is CREATED (it is always advanced under the whole stack). For each: number of yields, canonical '
         'observation of (X,Y,Z,t1,t2) at the yield vs Robinson unification (mgu up to renaming incl. aliasing), both '
@@ -38,7 +38,9 @@ def universe(tier):
     d1 += [F('.', t, u) for t in base for u in base]
     # Python constants that are false in a boolean context or are None: a value that an implementation
     # might confuse with "no value"
-    falsy = [C(None), C(0), C('')]
+    # ... and numbers whose Python hashes collide although they differ (hash(-1) == hash(-2), and
+    # integers are hashed modulo 2**61-1): equal hashes are not equal terms
+    falsy = [C(None), C(0), C(''), C(-1), C(-2), C(2 ** 61 - 1)]
     d1 += falsy + [F('f', t) for t in falsy] + [F('f', X, t) for t in falsy]
     # list-shaped terms two cells long whose cells are real list cells or other two-argument
     # compounds (a walk along a list must compare the name of EVERY cell)
